@@ -523,3 +523,105 @@ pub fn classes(cell: &Cell) -> Vec<String> {
         _ => vec![format!("{f}")],
     }
 }
+
+/// Cells for the multi-output / weighted families (used by C03, C05, C14, C15).
+pub fn extra_cells(seed: u64, per_kind: usize) -> Vec<Cell> {
+    use crate::families::{ALIAS_INT, TREE_INT};
+    let mut v = vec![];
+    let mut r = BaseRng::from_env(crate::rng::hseed(&[seed, 0xE17A]));
+    for fam in [Fam::UnitCircle, Fam::UnitDisc, Fam::UnitSphere, Fam::UnitBall] {
+        for ft in [Ft::F32, Ft::F64] {
+            v.push(Cell::new(fam, ft, &[]));
+        }
+    }
+    for ft in [Ft::F32, Ft::F64] {
+        for a in dirichlet_alphas(ft, &mut r, per_kind) {
+            v.push(Cell::new(Fam::Dirichlet, ft, &a));
+        }
+    }
+    let maxes: [(Fam, Fam, u128); 11] = [
+        (ALIAS_INT[0], TREE_INT[0], u8::MAX as u128),
+        (ALIAS_INT[1], TREE_INT[1], u16::MAX as u128),
+        (ALIAS_INT[2], TREE_INT[2], u32::MAX as u128),
+        (ALIAS_INT[3], TREE_INT[3], u64::MAX as u128),
+        (ALIAS_INT[4], TREE_INT[4], u64::MAX as u128),
+        (ALIAS_INT[5], TREE_INT[5], u64::MAX as u128),
+        (ALIAS_INT[6], TREE_INT[6], i8::MAX as u128),
+        (ALIAS_INT[7], TREE_INT[7], i16::MAX as u128),
+        (ALIAS_INT[8], TREE_INT[8], i32::MAX as u128),
+        (ALIAS_INT[9], TREE_INT[9], i64::MAX as u128),
+        (ALIAS_INT[10], TREE_INT[10], i64::MAX as u128),
+    ];
+    for (af, tf, mx) in maxes {
+        for k in 0..per_kind.max(3) {
+            let len = match k {
+                0 => 1,
+                1 => 2,
+                2 => 3,
+                _ => r.random_range(1..=12usize),
+            };
+            let cap = (mx / len as u128) as u64;
+            let ws: Vec<u64> = (0..len)
+                .map(|_| match r.random_range(0..5) {
+                    0 => 0,
+                    1 => 1,
+                    2 => cap,
+                    _ => r.random_range(0..=cap.min(1000)),
+                })
+                .collect();
+            let ws = if ws.iter().all(|&w| w == 0) { let mut w = ws; w[0] = 1; w } else { ws };
+            v.push(Cell::newi(af, &ws, &[]));
+            v.push(Cell::newi(tf, &ws, &[]));
+        }
+    }
+    for ft in [Ft::F32, Ft::F64] {
+        for k in 0..per_kind.max(3) {
+            let len = match k {
+                0 => 1,
+                1 => 2,
+                _ => r.random_range(2..=12usize),
+            };
+            let ws: Vec<f64> = (0..len)
+                .map(|_| match r.random_range(0..5) {
+                    0 => 0.0,
+                    1 => 1.0,
+                    _ => logu(&mut r, 1e-3, 1e3),
+                })
+                .collect();
+            let ws = if ws.iter().all(|&w| w == 0.0) { let mut w = ws; w[0] = 1.0; w } else { ws };
+            v.push(Cell::new(Fam::AliasF, ft, &ws));
+            v.push(Cell::new(Fam::TreeF, ft, &ws));
+        }
+    }
+    v
+}
+
+/// Dirichlet alpha vectors inside E by class (DESIGN C11).
+pub fn dirichlet_alphas(ft: Ft, r: &mut BaseRng, count: usize) -> Vec<Vec<f64>> {
+    let (lo, hi) = if ft == Ft::F32 { (1e-2, 1e3) } else { (1e-3, 1e4) };
+    let mut out: Vec<Vec<f64>> = vec![
+        vec![1.0, 1.0],
+        vec![0.05, 0.05, 0.05],
+        vec![0.1, 0.1, 0.1, 0.1],
+        vec![ft.next_up(0.1), 0.1, ft.next_down(0.1)],
+        vec![ft.next_up(0.1), ft.next_up(0.1)],
+        vec![0.5, 2.0, 7.0],
+        vec![lo, hi],
+        vec![lo, lo, hi, 1.0],
+        vec![2.0; 8],
+    ];
+    for _ in 0..count {
+        let len = if r.random_range(0..4) == 0 { r.random_range(2..=64usize) } else { r.random_range(2..=8usize) };
+        let class = r.random_range(0..4);
+        let a: Vec<f64> = (0..len)
+            .map(|_| match class {
+                0 => logu(r, lo, 0.1),
+                1 => logu(r, 0.1001, hi),
+                2 => logu(r, lo, hi),
+                _ => pick(r, &[ft.next_down(0.1), 0.1, ft.next_up(0.1), 0.05, 0.2]),
+            })
+            .collect();
+        out.push(a);
+    }
+    out.into_iter().map(|a| a.into_iter().map(|x| ft.rnd(x)).collect()).collect()
+}
